@@ -346,7 +346,7 @@ pub fn run(ctx: &mut Ctx) {
     if ctx.shard == 0 {
         ctx.count_n("tid_boundary_patterns_per_build", pats.len() as u64);
     }
-    let n = ctx.n(200_000, 20_000_000);
+    let n = ctx.n(2_000_000, 20_000_000);
     let mut rng = ctx.rng("tid-random", 0);
     for k in 0..n {
         let mut x = rng.u128();
@@ -359,7 +359,7 @@ pub fn run(ctx: &mut Ctx) {
     ctx.count_n("tid_random", n);
 
     // ---- generated ids fit in 96 bits ----
-    let g = ctx.n(100_000, 5_000_000);
+    let g = ctx.n(500_000, 5_000_000);
     let mut distinct_gen = std::collections::HashSet::new();
     for _ in 0..g {
         ctx.eval();
